@@ -108,13 +108,21 @@ def run_case(case, timeout=20.0, keep_dir=False):
     try:
         inode_before = {}
         for name, text in case.get("files", {}).items():
+            os.makedirs(os.path.dirname(os.path.join(d, name)), exist_ok=True)
             with open(os.path.join(d, name), "wb") as f:
                 f.write(dec(text))
         for name in case.get("watch", []):
             p = os.path.join(d, name)
             inode_before[name] = os.stat(p).st_ino if os.path.exists(p) else None
+        argv = list(case["argv"])
+        roles = dict(case.get("roles", {}))
+        if case.get("absolute"):
+            # the same files named by absolute path on the command line
+            named = set(v for v in roles.values() if v != "-")
+            argv = [os.path.join(d, a) if a in named else a for a in argv]
+            roles = {k: (os.path.join(d, v) if v != "-" else v) for k, v in roles.items()}
         lines = []
-        for role, path in case.get("roles", {}).items():
+        for role, path in roles.items():
             lines.append("role %s %s" % (role, path))
         lines += case.get("plan", [])
         with open(os.path.join(d, ".plan"), "w") as f:
@@ -143,10 +151,31 @@ def run_case(case, timeout=20.0, keep_dir=False):
             outf = open(os.path.join(d, ".stdout"), "wb")
             stdout_arg = outf
         timed_out = False
+        exe = binary
+        if case.get("argv0"):
+            # the program is started through a symlink, so argv[0] / current_exe() differ although the binary is the same
+            os.symlink(binary, os.path.join(d, case["argv0"]))
+            exe = "./" + case["argv0"]
+        for sub in case.get("mkdirs", []):
+            os.makedirs(os.path.join(d, sub), exist_ok=True)
+        old_umask = os.umask(case["umask"]) if case.get("umask") is not None else None
+        old_aff = None
+        if case.get("cpus"):
+            try:
+                old_aff = os.sched_getaffinity(0)
+                os.sched_setaffinity(0, set(sorted(old_aff)[:case["cpus"]]))
+            except OSError:
+                old_aff = None
         try:
             _set_process_attrs(case.get("stack_kb", 8192), case.get("aslr", False))
-            p = subprocess.Popen([binary] + list(case["argv"]), cwd=d, env=env, stdin=stdin_arg, stdout=stdout_arg,
-                                 stderr=subprocess.PIPE)
+            try:
+                p = subprocess.Popen([exe] + argv, cwd=d, env=env, stdin=stdin_arg, stdout=stdout_arg,
+                                     stderr=subprocess.PIPE)
+            finally:
+                if old_umask is not None:
+                    os.umask(old_umask)
+                if old_aff is not None:
+                    os.sched_setaffinity(0, old_aff)
             try:
                 out, err = p.communicate(timeout=timeout)
             except subprocess.TimeoutExpired:
